@@ -402,6 +402,7 @@ func apply(w *walk.Worker, ctx sdk.Context, e *graph.Edge, path []*graph.Edge, g
 			msg = &mtypes.MsgUpdateMintersParams{Authority: s.authority(graph.Str(act["auth"])), StartTime: params.StartTime, Minters: params.Minters}
 		}
 		outcome, detail, _, _ := s.env.Deliver(ctx, msg)
+		w.Count("outcome.update." + outcome)
 		want := "rejected"
 		if graph.Bool(act["ok"]) {
 			want = "ok"
@@ -416,6 +417,19 @@ func apply(w *walk.Worker, ctx sdk.Context, e *graph.Edge, path []*graph.Edge, g
 				sig = "minter.update.denom-not-validated"
 			}
 			fail("C13", "outcome", sig, "parameter update accept/reject differs from the model ("+detail+")", want, outcome)
+			if outcome == "ok" {
+				// the code stored parameters the specification refuses: the model has nothing more to say, but C10 can
+				// still be judged on the real chain alone - run the next blocks and see whether begin-block survives
+				pctx := env.Fork(ctx)
+				now, _ := s.meta.Tick(ctx.BlockTime())
+				for dt := int64(1); dt <= 6; dt++ {
+					pctx = pctx.WithBlockTime(s.meta.Time(now + dt)).WithBlockHeight(pctx.BlockHeight() + 1)
+					if p := env.Try(func() { cfeminter.BeginBlocker(pctx, k) }); p != "" {
+						fail("C10", "panic", "minter.beginblock.panic.after-accepted-update", fmt.Sprintf("BeginBlocker panics %d tick(s) after a parameter update that validation should have refused: %s", dt, p), "no panic", p)
+						break
+					}
+				}
+			}
 			return ctx, fs, true
 		}
 	case "export":
